@@ -12,13 +12,18 @@ set_option linter.unusedSimpArgs false
 set_option linter.unusedSectionVars false
 namespace GeomV.C04
 open GeomV GeomV.C04.Spec
-variable {α : Type}
+variable {α : Type} [LT α] [DecidableLT α]
 
 /-- **C04_points_src (*Bounds).** `(*Bounds).Points()` as written in bounds.go, called `Len()`-as-written times:
-the four corners in the documented order, no panic. -/
+the four corners in the documented order (none for a box without points), no panic. -/
 theorem C04_points_src_Bounds (mn mx : Pt α) :
     drainStep (fun i : Nat => Gen.boundsPointsNext ⟨mn, mx⟩ i) (Gen.boundsLen (⟨mn, mx⟩ : Box α)) Gen.boundsPointsInit
-      = .ok [mn, ⟨mx.x, mn.y⟩, mx, ⟨mn.x, mx.y⟩] := rfl
+      = .ok (vertices (.bounds mn mx)) := by
+  have hl : Gen.boundsLen (⟨mn, mx⟩ : Box α) = if Box.empty (⟨mn, mx⟩ : Box α) then 0 else 4 := rfl
+  rw [hl]
+  cases hE : Box.empty (⟨mn, mx⟩ : Box α) with
+  | true => simp only [Box.empty] at hE; simp [vertices, hE, drainStep]
+  | false => simp only [Box.empty] at hE; simp [vertices, hE]; rfl
 
 /-- **C04_len_src (GeometryCollection).** `GeometryCollection.Len` as written. -/
 theorem C04_len_src_GeometryCollection (gs : List (Geom α)) (h : noNilL gs = true) :
@@ -79,12 +84,11 @@ attribute [local instance] infOfBounded
 variable {α : Type} [LinearOrder α] [BoundedOrder α]
 
 /-- **C04_bounds_src (GeometryCollection).** `GeometryCollection.Bounds` as written: the envelope of the vertices
-of all members (hypothesis `boxesNonEmptyL`: the known finding about an empty `*Bounds` used as a geometry). -/
-theorem C04_bounds_src_GeometryCollection (gs : List (Geom α)) (h : noNilL gs = true)
-    (hb : boxesNonEmptyL gs = true) :
+of all members, whatever the members are (`*Bounds` without points included). -/
+theorem C04_bounds_src_GeometryCollection (gs : List (Geom α)) (h : noNilL gs = true) :
     ∃ b, Gen.geometryCollectionBounds boundsG gs = .ok b ∧ IsEnvelope (verticesL gs) b := by
   rw [← C04_tie_GeometryCollection_Bounds]
-  have := C04_bounds (.collection gs) (by simpa [noNil] using h) (by simpa [boxesNonEmpty] using hb)
+  have := C04_bounds (.collection gs) (by simpa [noNil] using h) rfl
   simpa [vertices] using this
 end
 
